@@ -275,6 +275,12 @@ func runC11(c *Ctx) {
 	c.Rule("R11g", "checkpoint files never become pending through the raw listing: every []File returned by Executor.Pending (and every value assigned to its pending variable) is built from SkipCheckpointFiles(…) / FilesFromLastCheckpoint(…) results, slices of them, or the single partially applied checkpoint element", 4)
 	checkPendingSources(c, "R11g")
 
+	// ---- R11i / R11j
+	c.Rule("R11i", ruleTextPendingLowerBound, 3)
+	checkPendingLowerBound(c, "R11i")
+	c.Rule("R11j", ruleTextDirRestored, 1)
+	checkDirRestored(c, "R11j")
+
 	// ---- R11h
 	c.Rule("R11h", ruleTextPartialAnywhere, 1)
 	checkPartialAnywhere(c, "R11h")
